@@ -171,5 +171,19 @@ pub fn c03_struct_forms<S: Src>(_s: &mut S) {
         check("ppu drep_inactivity_period", one(&|u| u.set_drep_inactivity_period(132)), entry(32, uint(132)));
         check("ppu ref_script_coins_per_byte", one(&|u| u.set_ref_script_coins_per_byte(&ui(133))), entry(33, uib(133)));
     }
+    // text leaves: the CDDL bounds are BYTE lengths (multi-byte characters count with all their bytes)
+    {
+        let mut expect = |what: &str, accepted: bool, want: bool| { if accepted != want { failures.push(format!("{}: {} although the CDDL byte bound says it must be {}", what, if accepted { "accepted" } else { "refused" }, if want { "accepted" } else { "refused" })); } };
+        for (n_ascii, n_e) in [(64usize, 0usize), (65, 0), (0, 32), (0, 33), (62, 1), (63, 1), (1, 32)] {
+            let t: String = "a".repeat(n_ascii) + &"é".repeat(n_e);
+            expect(&format!("TransactionMetadatum::new_text({} bytes, {} chars)", t.len(), t.chars().count()), TransactionMetadatum::new_text(t.clone()).is_ok(), t.len() <= 64);
+        }
+        for (n_ascii, n_e) in [(128usize, 0usize), (129, 0), (0, 64), (0, 65), (127, 1)] {
+            let t: String = "a".repeat(n_ascii) + &"é".repeat(n_e);
+            expect(&format!("URL::new({} bytes, {} chars)", t.len(), t.chars().count()), URL::new(t.clone()).is_ok(), t.len() <= 128);
+            expect(&format!("DNSRecordAorAAAA::new({} bytes, {} chars)", t.len(), t.chars().count()), DNSRecordAorAAAA::new(t.clone()).is_ok(), t.len() <= 128);
+            expect(&format!("DNSRecordSRV::new({} bytes, {} chars)", t.len(), t.chars().count()), DNSRecordSRV::new(t.clone()).is_ok(), t.len() <= 128);
+        }
+    }
     assert!(failures.is_empty(), "{} struct-level forms deviate from the CDDL; first: {}", failures.len(), failures[0]);
 }
